@@ -475,7 +475,8 @@ func runCheck(id, tier, repo, verif string, writeEvidence bool) int {
 	for i := 0; i < 3 && i < len(cr.results); i++ {
 		fmt.Printf("  slowest: %5dms %-7s %s\n", cr.results[i].Res.Ms, cr.results[i].Res.Solver, cr.results[i].Obl.Name)
 	}
-	fmt.Printf("%s %s: %d obligations, %d discharged, %d known findings, %d unclaimed, %d violations, %.1fs\n", id, tier, total, discharged, len(knownHit), len(unclaimedHit), violations, time.Since(start).Seconds())
+	np := byKind["bounded"] + byKind["executed"] + byKind["regression"]
+	fmt.Printf("%s %s: %d obligations, %d discharged (%d of them executed or bounded checks, not proofs), %d known findings, %d unclaimed, %d violations, %.1fs\n", id, tier, total, discharged, np, len(knownHit), len(unclaimedHit), violations, time.Since(start).Seconds())
 	if violations > 0 {
 		return 1
 	}
@@ -608,9 +609,15 @@ func (cr *checkRun) writeEvidenceFull(verif string, violations, total, discharge
 	for _, e := range cr.extras {
 		extras = append(extras, map[string]interface{}{"name": e.Name, "kind": e.Kind, "ok": e.OK, "count": e.Count, "ms": e.Ms})
 	}
+	// what was proved (SMT, call graph, table) and what was only executed (regression replays, exhaustive
+	// executions) or sampled within a stated bound: the latter two are never counted as proved
+	notProved := byKind["bounded"] + byKind["executed"] + byKind["regression"]
 	cov := map[string]interface{}{
 		"obligations":              total,
 		"discharged":               discharged,
+		"proved":                   discharged - notProved,
+		"executed_not_proved":      byKind["executed"] + byKind["regression"],
+		"bounded_not_proved":       byKind["bounded"],
 		"checker_cmd":              fmt.Sprintf("./bin/yqv check %s --tier %s  (solvers raced per obligation: z3-new 5.1.0, z3 4.8.12, cvc5 1.0.x; timeout %d ms)", cr.ps.id, cr.tier, cr.timeout),
 		"trusted_base":             []string{"go/ssa (x/tools v0.29.0)", "yqv VC generator", "spec library /verif/spec", "assumed library models (see assumptions)", "z3 / cvc5"},
 		"samples":                  samples,
